@@ -39,7 +39,8 @@ def run(tier, seed):
             die_tool(f"{cfg} failed")
         for c in g.cases:
             fold = cfg.endswith("fold.cfg")
-            for mb in ((False, True) if fold else (False,)):
+            has_out = any(f["k"] == "tout" for f in c["frames"])
+            for mb in ((0, 1, 2, 3, 4) if (fold and has_out) else ((0, 1) if fold else (0,))):
                 # rendering is the expensive part: every sequence of the fold family in thorough, a stride in quick
                 do_render = fold and (thorough or len(cases) % 23 == 0) or (not fold and len(cases) % 97 == 0)
                 cases.append({"id": f"c{len(cases)}", "frames": c["frames"], "cap": c["cap"], "maxout": c["maxout"], "mb": mb,
@@ -86,7 +87,7 @@ def run(tier, seed):
         if c["_fold"]:
             if ob["tools"] != pred["tools"]:
                 v.violation(f"tool summaries {ob['tools']} differ from the fold {pred['tools']} for {[(f['k'], f['id']) for f in c['frames']]}", dict(rep, obs=ob))
-            if not c["mb"] and ob["outlen"] != pred["outlen"]:
+            if c["mb"] == 0 and ob["outlen"] != pred["outlen"]:
                 v.violation(f"output length {ob['outlen']} differs from the fold {pred['outlen']} for {[(f['k'], f['n']) for f in c['frames']]}", dict(rep, obs=ob))
         if len(v.cov["samples"]) < 3 and nontrivial and len(c["frames"]) >= 3:
             v.sample({"frames": c["frames"], "capacity": c["cap"], "predicted": rep["predicted"], "observed": {k: ob[k] for k in ("window", "get", "tools", "outlen")}})
